@@ -1,5 +1,6 @@
 #!/usr/bin/env python3
-"""Regenerates MANIFEST.json from the per-property table below (single place to edit)."""
+"""Regenerates MANIFEST.json from tools/checks/<Cnn>.json (one file per property: category, text, design_ref, note, technique).
+TB below is the common trusted-base sentence (already expanded inside the JSON files)."""
 import json
 import os
 
@@ -9,137 +10,12 @@ TB = ("Lean 4.33 kernel; axioms propext, Classical.choice, Quot.sound only (audi
       "bv_decide/sorry); tools/translate.py for the generated tables; the hand-written model is tied to /repo by the "
       "correspondence check named in `technique`")
 
-CHECKS = {
-    "C15": dict(
-        category="proof",
-        text="Lean theorems about the model of config.py (noninterference for every interleaving at operation and at "
-             "micro-operation granularity, scope exit restores, rejected attempts change nothing, assignment refused, coercion, "
-             "thread-id reuse) + bounded-exhaustive correspondence of the model with the real _SQLLineageConfigLoader "
-             "(outputs, final state and logged dict/set mutations) + real threads under a line-level deterministic scheduler",
-        design_ref="DESIGN.md §5 C15",
-        note=TB + ". Assumed: GIL atomicity of single dict/set operations, threading.get_ident unique among live threads, `with` "
-             "exit guarantee; override values range over str/int/bool.",
-        technique="Lean 4 proof over a hand-written model + exhaustive differential correspondence (model driver vs real object)",
-    ),
-    "C17": dict(
-        category="proof",
-        text="Lean theorems about the model of the WSGI app's path handling with the repaired containment check, for every "
-             "request (unbounded path length, arbitrary characters): GET serves only below the static folder "
-             "(get_contained, from 'no .. substring => no .. segment'), POST serves only below root_path or the configured "
-             "default directory (post_contained, post_escape_refused), refusals have fixed bodies (refusal_reveals_nothing), "
-             "the operating system's own resolution ends at the lexically resolved location on a symlink-free tree "
-             "(os_resolve_lexical, disclosure_is_under_root); witnesses that the original check let '..' and prefix-sibling "
-             "paths through (D22) and listed the parent of the root (D23) + bounded-exhaustive correspondence of the model "
-             "with the real sqllineage.drawing.app on a scratch tree and a model-independent marker oracle",
-        design_ref="DESIGN.md §5 C17",
-        note=TB + ". Assumed: no symbolic links (Path.resolve() = lexical resolution, compared with pathlib on every "
-             "enumerated spelling), POSIX paths, string-valued f/d/e payload members, readable tree.",
-        technique="Lean 4 proof over a hand-written model + exhaustive differential correspondence (model driver vs real "
-                  "WSGI callable, <=4/5 segments over 9 segment kinds x relative/absolute x route x method x 2 root settings)",
-    ),
-    "C16": dict(
-        category="proof",
-        text="Lean theorems for ALL strings about the model of escape_identifier_name / Schema / Table / Path / SubQuery / "
-             "Column / SqlFluffTable.of / to_source_columns (unquoted names are case-insensitive; each quote style keeps case "
-             "and loses only the quotes; last-dot split; three-part limit; equal entities hash equally; the same spelling "
-             "gives the same column / table / schema at every creation site, incl. written-then-read) + exhaustive "
-             "correspondence of the model with the real functions on every string over a 9-character alphabet up to length "
-             "5/6, on SqlFluffTable.of and to_source_columns, eq/hash on real objects, and SQL-level spelling x position x "
-             "dialect runs judged implementation-vs-implementation",
-        design_ref="DESIGN.md §5 C16",
-        note=TB + ". The model describes the code with fixes/D20-*.patch and fixes/D21-*.patch applied; two residual "
-             "double-normalisation sites are recorded findings (D20-scalar-subquery, D20-unknown-qualifier). Assumed: ASCII "
-             "identifiers; sqlfluff's parse trees and sqlparse's remove_quotes as observed; SqlFluffTable.of is driven with "
-             "duck-typed segments in the direct part and with real trees in the SQL-level part.",
-        technique="Lean 4 proof over a hand-written model + exhaustive differential correspondence (model driver vs real "
-                  "functions) + metamorphic SQL-level check (same statement under the plain spelling, renamed)",
-    ),
-}
-
-CHECKS["C03"] = dict(
-    category="proof",
-    text="Lean theorems about the model of SQLLineageHolder._build_digraph and the role predicates: for every DROP/RENAME-free "
-         "history (any length, any tables) the table edges and the source/target/intermediate sets are exactly those the "
-         "per-statement reads/writes imply, self-loop tables are source and target but not intermediate, order and repetition "
-         "are irrelevant; DROP never fails, never changes an edge or another node, and removes the table iff its degree is zero; "
-         "single-pair RENAME never fails and removes the old name; witness that the RENAME hypothesis is needed; D10 witness. "
-         "The model is tied to the code by an EXHAUSTIVE differential of all histories of <=3 abstract statements over 3 tables "
-         "(70 643 histories) against SQLLineageHolder.of, plus two-pair renames under both pair orders and random SQL scripts "
-         "through LineageRunner with a statement tap",
-    design_ref="DESIGN.md §5 C03, Appendix C",
-    note=TB + ". Modelled, not verified: networkx DiGraph/compose/relabel_nodes/remove_edge (Model/Graph.lean re-implements the "
-         "parts used; the correspondence exercises them). RENAME 'puts y exactly in x's place' is proved at the level of "
-         "nodes/edges removal and totality, the role transfer under the PlainLineage hypothesis is checked by the exhaustive "
-         "differential and the implementation-only oracle, not yet a theorem. Known finding D10 (multi-pair RENAME).",
-    technique="Lean 4 proof (invariant over the statement fold) + exhaustive differential correspondence (model driver vs SQLLineageHolder.of)",
-)
-
-CHECKS["C01"] = dict(
-    category="proof",
-    text="Lean model of the sqlfluff extractors on a typed AST of core SQL (Model/Walk.lean: subquery discovery per clause, SQL-89 "
-         "branch, deep join crawl, CTE handling, create/insert target detection) and a denotational specification of the tables a "
-         "statement reads/writes with standard WITH scoping (Spec/Tables.lean). Theorems so far: the regenerated dispatch tables "
-         "are disjoint (dispatch order irrelevant), no-op statement types report nothing for every configuration, dispatch "
-         "totality. The exactness theorem `reads_exact` on the syntactic fragment Frag01 is work in progress; until it lands, "
-         "model = spec on Frag01 rests on the three-way differential: every generated statement (bounded-exhaustive shapes + "
-         "seeded random) is rendered by Lean and run through the real LineageRunner under 4 (quick) / all (thorough) sqlfluff "
-         "dialects and compared with model AND specification; statements outside Frag01 must match the model and fall in a "
-         "listed deviation class",
-    design_ref="DESIGN.md §5 C01, §6 D1-D5, Appendix A/B",
-    note=TB + ". partial: the step text -> sqlfluff tree (third-party grammars) is not modelled; UPDATE/MERGE/COPY/SELECT INTO are not "
-         "in the typed AST yet. D1 repaired (4da7204). Known findings D2, D2w, D3, D4, D5, D7 (table lineage lost at specific syntactic positions).",
-    technique="Lean 4 model + specification with proved dispatch lemmas; three-way differential (implementation / model / specification) "
-              "on Lean-rendered SQL",
-)
-
-CHECKS["C02"] = dict(
-    category="proof",
-    text="Lean theorems about the column layer of the model for every expression / alias map / graph: the naming rule (alias, "
-         "else own name, else expression text; source references independent of the text), scope resolution (qualified reference "
-         "resolves to the relation answering to the qualifier; unknown qualifier becomes a table, never a guess; unqualified "
-         "reference resolves to the only relation, or carries exactly the scope as candidates whatever the set iteration order), "
-         "which names a table answers to, positional wiring rule of end_of_query_cleanup, D6/D7 mechanisms. The end-to-end "
-         "statement pairs_exact is NOT proved (kept as a comment): the composition of the layers is tied to the code by the "
-         "SQL-level correspondence — every generated data-moving statement (bounded-exhaustive shapes + seeded random, expression "
-         "depth<=3, nesting<=4) run through the real LineageRunner under 3 (quick) / all (thorough) dialects, complete path sets "
-         "compared with the model's, tolerant only of the hash-order class D16",
-    design_ref="DESIGN.md §5 C02, §6 D6-D9, D25",
-    note=TB + ". partial (staged): no Lean specification of column dataflow yet; `_get_column_from_subquery` (sqlparse analyzer on the raw "
-         "subquery text) is not modelled, so statements with a subquery inside a select item are outside the column-level "
-         "correspondence; UPDATE/MERGE not in the typed AST. Known findings D6, D7, D16, D25.",
-    technique="Lean 4 proof of the column-resolution layer + differential correspondence of complete column path sets on Lean-rendered SQL",
-)
-
-CHECKS["C07"] = dict(
-    category="proof",
-    text="Lean theorems, for all inputs, about the layers the extractors put between sqlfluff's tree and their own logic: "
-         "list_child_segments (plain, set-expression and bracketed/iter_segments branches), extract_identifier, merge's segments[i+1] "
-         "and the repaired SqlFluffTable.of do not see whitespace / comment / meta segments inserted between the children of a "
-         "segment (negligible_filter, extractIdentifier_noise, nextSegment_noise, tableParts_noise) nor at any depth of the tree "
-         "(negligible_filter_deep, layout_irrelevant, strip_insertNoise); raw_upper matching of every keyword of the regenerated "
-         "tables ignores letter case (keyword_match_case, keyword_match_iff); escape_identifier_name is case-insensitive on unquoted "
-         "names and maps a lower-case name and its quoted forms (each regenerated quote char, brackets) alike "
-         "(escape_case_insensitive, escape_quote_lowercase); pieces without code are dropped by helpers.split (trailing_semicolons); "
-         "the model's statement analysis depends on the rendering's keyword case only through rendered raw texts "
-         "(render_case_irrelevant*, Spec.reads/writes independent of it); witness dev_D30 for the code before the repair. "
-         "Metamorphic differential implementation-vs-implementation on generated statements (Lean-rendered), MERGE/UPDATE/COPY/script "
-         "templates and the harvested corpus (repo tests + TPC-DS) under token-level rewrites: every inter-token gap x {space, newline, "
-         "tab, block comment with ';', line comment with ';'}, keyword / function / unquoted-identifier case x {upper, lower, mixed}, "
-         "quoting of lower-case identifiers with the dialect's quote styles, 0-3 trailing semicolons; tables compared exactly, column "
-         "paths after masking only subquery_<hash> and display names of un-aliased expressions; failing pairs delta-debugged to a "
-         "minimal rewrite set and classified; direct correspondences of the Lean layers with the code (list_child_segments / "
-         "is_negligible / SqlFluffTable.of on real trees, escape_identifier_name bounded-exhaustive, helpers.split on all scripts of "
-         "<= 5/6 tokens)",
-    design_ref="DESIGN.md §5 C07",
-    note=TB + ". partial: sqlfluff's lexer/parser are not modelled; the theorems cover the normalisation and filtering layers, the rest "
-         "is the metamorphic differential. Which rewrites are eligible is decided with the dialect's own parser; a variant it rejects "
-         "is a rejection. Known findings D30 (T-SQL gaps inside a qualified table name; fix prepared), D31 (gap inside `t. *`), D32 "
-         "(third party: gap at the dot of a qualified column re-read as field access), D33 (subquery identity by raw text), D34 "
-         "(scalar subquery re-analysed by the sqlparse analyzer: `f (x)`). The `non-validating` dialect and metadata providers are "
-         "not part of the differential.",
-    technique="Lean 4 proof over a hand-written model of the filtering / normalisation layers + metamorphic differential "
-              "(implementation vs implementation under token-level rewrites) + direct differential correspondences of the model",
-)
+CHECKS = {}
+_d = os.path.join(os.path.dirname(os.path.abspath(__file__)), "checks")
+for _f in sorted(os.listdir(_d)):
+    if _f.endswith(".json"):
+        with open(os.path.join(_d, _f)) as _fh:
+            CHECKS[_f[:-5]] = json.load(_fh)
 
 NOT_YET = "machinery not built yet (build phase in progress, see DESIGN.md §9)"
 
